@@ -8,7 +8,7 @@ PROP = 'C10'
 
 # other-axis id lists of an extra operand relative to the first operand's other-axis ids
 def inv_patterns(ids):
-    return {'identical': list(ids), 'permuted': list(ids)[::-1], 'missing-first': list(ids)[1:] or list(ids),
+    return {'identical': list(ids), 'permuted': list(ids)[::-1], 'rotated': list(ids)[1:] + list(ids)[:1], 'missing-first': list(ids)[1:] or list(ids),
             'missing-last+new': list(ids)[:-1] + ['b2'], 'disjoint': ['b10x', 'b2'], 'zero-length': []}
 
 
@@ -144,9 +144,13 @@ def jobs(tier):
                 if tier != 'quick' or (via == 'method' and md_cfg in ((False, False, False), (True, False, True))):
                     out.append(('concat', (axis, 3, md_cfg, via)))
         out.append(('not_disjoint', (axis,)))
+        # three ids on the other axis: orders that are not their own inverse (rotations)
+        out.append(('concat', (axis, 2, (False, False, False), 'method', (3, 2) if axis == 'sample' else (2, 3))))
         if tier != 'quick':
             for shape in ((2, 3), (3, 2)):
                 for md_cfg in ((False, False, False), (True, True, True), (False, True, False)):
+                    if md_cfg == (False, False, False) and shape == ((3, 2) if axis == 'sample' else (2, 3)):
+                        continue        # registered above for both tiers
                     out.append(('concat', (axis, 2, md_cfg, 'method', shape)))
             for md_cfg in ((False, False, False), (True, False, True)):
                 out.append(('concat', (axis, 2, md_cfg, 'method', (2, 2), True)))
